@@ -24,8 +24,9 @@ RULE = ("programs mixing catalogue unitaries with every library channel (paramet
         "final state is mixed (purity < 1-1e-6) or the channel differs from identity; distinct by program text + configuration")
 ASSUMPTIONS = ["catalogue Kraus sets are ground truth", "Kraus branches lighter than 1e-7 are never forced",
                "tolerance 2e-5 (complex64 density matrices) / 1e-7 (complex128)"]
-MIN_EVAL = {"dm-final==kraus-sum": 300, "dm-valid-state": 300, "conversion": 500, "unravelling==rho": 100, "noise-model": 150}
+MIN_EVAL = {"dm-final==kraus-sum": 300, "dm-valid-state": 300, "conversion": 500, "unravelling==rho": 100, "noise-model": 150, "apply_mixture==sum": 800}
 MUST_REACH = [
+    "cirq/protocols/apply_mixture_protocol.py:_apply_mixture_from_mixture_strat",
     "cirq/protocols/apply_channel_protocol.py:_apply_kraus",
     "cirq/protocols/apply_channel_protocol.py:_apply_unitary",
     "cirq/sim/density_matrix_simulation_state.py:DensityMatrixSimulationState._act_on_fallback_",
@@ -745,7 +746,94 @@ def sec_measures(ctx, rng, case):
         ctx.distinct(("efid", sp.name, repr(p)), nontrivial=want < 1 - 1e-6)
 
 
+class _MixtureOnly:
+    """a value that offers nothing but _mixture_ (probability, component) pairs: components may be matrices or anything
+    with a unitary effect (the documented second form), e.g. gates that apply themselves in place"""
+
+    def __init__(self, pairs, n):
+        self._pairs, self._n = tuple(pairs), n
+
+    def _mixture_(self):
+        return self._pairs
+
+    def _num_qubits_(self):
+        return self._n
+
+    def _qid_shape_(self):
+        return (2,) * self._n
+
+
+def sec_apply_mixture(ctx, rng, case):
+    """cirq.apply_mixture on caller-owned tensors, state-vector form (sum_k p_k U_k psi) and density-matrix form
+    (sum_k p_k U_k rho U_k^dagger), on arbitrary axes of a larger register"""
+    import cirq
+
+    k = 1 if rng.random() < 0.6 else 2
+    n = int(rng.integers(k, 4))
+    kind = int(rng.integers(4))
+    g1 = [("Z", cirq.Z), ("S", cirq.S), ("T", cirq.T), ("X", cirq.X), ("H", cirq.H), ("Y**0.3", cirq.Y ** 0.3), ("I", cirq.I),
+          ("Z**-0.41", cirq.Z ** -0.41)]
+    g2 = [("CZ", cirq.CZ), ("CNOT", cirq.CNOT), ("SWAP", cirq.SWAP), ("CZ**0.37", cirq.CZ ** 0.37), ("ISWAP", cirq.ISWAP), ("ZZ**0.2", cirq.ZZ ** 0.2),
+          ("I2", cirq.IdentityGate(2))]
+    if kind == 0:
+        cs = [s_ for s_ in P.pools()["c"] if s_.shape == (2,) * k and "custom" not in s_.tags]
+        sp = cs[int(rng.integers(len(cs)))]
+        p = sp.sample(rng)
+        try:
+            val = sp.make(p)
+        except ValueError:
+            ctx.reject("constructor")
+            return
+        mix = cirq.mixture(val, None)
+        if mix is None:
+            ctx.reject("channel-without-mixture")
+            return
+        comps = [(float(pr), np.asarray(u, dtype=complex)) for pr, u in mix]  # (the mixture itself is C03's / the conversions' business)
+        label = sp.name
+    else:
+        pool = g1 if k == 1 else g2
+        m = int(rng.integers(1, 5))
+        names = [pool[int(i)] for i in rng.integers(len(pool), size=m)]
+        probs = rng.dirichlet(np.ones(m))
+        comps = [(float(pr), np.asarray(cirq.unitary(g), dtype=complex)) for pr, (_, g) in zip(probs, names)]
+        if kind == 1:
+            val = _MixtureOnly([(float(pr), g) for pr, (_, g) in zip(probs, names)], k)  # gate objects
+        elif kind == 2:
+            val = _MixtureOnly([(float(pr), cirq.unitary(g)) for pr, (_, g) in zip(probs, names)], k)  # matrices
+        else:
+            val = cirq.MixedUnitaryChannel([(float(pr), cirq.unitary(g)) for pr, (_, g) in zip(probs, names)])
+        label = "%s[%s]" % (["", "gate-components", "matrix-components", "MixedUnitaryChannel"][kind], ",".join(nm for nm, _ in names))
+    axes = [int(a) for a in rng.choice(n, size=k, replace=False)]
+    dtype = [np.complex64, np.complex128][int(rng.integers(2))]
+    tol = 1e-5 if dtype == np.complex64 else 1e-9
+    dm = bool(rng.integers(2))
+    wit = dict(value=label, n=n, axes=axes, density_matrix=dm, dtype=str(np.dtype(dtype)))
+    D = 2 ** n
+    if dm:
+        rho = L.random_rho(rng, D)
+        t = rho.astype(dtype).reshape((2,) * (2 * n))
+        want = sum(pr * L.embed(u, axes, (2,) * n) @ rho @ L.embed(u, axes, (2,) * n).conj().T for pr, u in comps)
+        args = cirq.ApplyMixtureArgs(target_tensor=t, out_buffer=np.full_like(t, np.nan), auxiliary_buffer0=np.full_like(t, np.nan),
+                                     auxiliary_buffer1=np.full_like(t, np.nan), left_axes=axes, right_axes=[n + a for a in axes])
+    else:
+        psi = L.random_state(rng, D)
+        t = psi.astype(dtype).reshape((2,) * n)
+        want = sum(pr * L.embed(u, axes, (2,) * n) @ psi for pr, u in comps)
+        args = cirq.ApplyMixtureArgs(target_tensor=t, out_buffer=np.full_like(t, np.nan), auxiliary_buffer0=np.full_like(t, np.nan),
+                                     auxiliary_buffer1=np.full_like(t, np.nan), left_axes=axes)
+    got = cirq.apply_mixture(val, args, default=None)
+    if got is None:
+        ctx.check(False, "apply_mixture==sum", "C09:apply_mixture:refused", "apply_mixture returned the default for a value with a mixture", **wit)
+        return
+    got = np.asarray(got).reshape((D, D) if dm else (D,))
+    ctx.check(L.allclose(got, want, tol), "apply_mixture==sum", "C09:apply_mixture:" + ("density-matrix" if dm else "state-vector"),
+              lambda: "apply_mixture deviates from sum_k p_k U_k (.) U_k^dagger by %.3g (trace %.6g)" % (L.maxdiff(got, want), np.trace(got).real if dm else float("nan")), **wit)
+    ctx.distinct((label, n, tuple(axes), dm), nontrivial=len(comps) >= 2)
+    ctx.sample(wit)
+
+
 SECTIONS = [
+    ("apply_mixture", sec_apply_mixture, 1500, 30000, 0.5),
     ("dm", sec_dm, 900, 25000, 4.0),
     ("dm_measure", sec_dm_measure, 300, 8000, 1.5),
     ("conversions", sec_conversions, 1500, 40000, 1.0),
